@@ -100,6 +100,11 @@ fn res_string(r: &Result<ssdeep::RawFuzzyHash, GeneratorOrIOError>) -> String {
 /// One execution: `declared` = None uses `hash_stream`, Some(d) the hook H2
 /// forwarder with a generator on which d was declared.
 pub fn run_one(len: usize, policy: usize, script: &[(usize, Answer)], declared: Option<u64>) -> Result<String, String> {
+    // a panic escaping from the library through any call below is a violation of this case, not a crash
+    guard_case(|| run_one_unguarded(len, policy, script, declared))
+}
+
+fn run_one_unguarded(len: usize, policy: usize, script: &[(usize, Answer)], declared: Option<u64>) -> Result<String, String> {
     let data = payload(len);
     let mut rd = ScriptedReader::new(&data, policy, script.to_vec());
     let res = match declared {
@@ -150,6 +155,11 @@ fn case(len: usize, policy: usize, script: &[(usize, Answer)], declared: Option<
 }
 
 fn file_case(kind: &str, dir: &std::path::Path) -> Result<String, String> {
+    // a panic escaping from the library through any call below is a violation of this case, not a crash
+    guard_case(|| file_case_unguarded(kind, dir))
+}
+
+fn file_case_unguarded(kind: &str, dir: &std::path::Path) -> Result<String, String> {
     let r = |p: &std::path::Path| guarded(|| ssdeep::hash_file(p)).map(|r| res_string(&r));
     match kind {
         "missing" => {
